@@ -236,20 +236,13 @@ def _run_core(world, plan):
     # longer than the nominal window to drain what is already queued
     loop.run_sim(until_time=loop.time() + settle)
 
-    def drained():
-        for ep in world.endpoints.values():
-            q = getattr(ep, '_send_queue', None)
-            if q is not None and not q.empty() and getattr(ep, '_sender_task', None) is not None:
-                return False
-        return link.idle()
-
+    # ... so wait until nothing but keepalives has happened for a while (frames still being
+    # written, delivered or reassembled all count as progress)
     deadline = loop.time() + plan.get('drain_window', 900.0)
-    while not drained() and loop.time() < deadline:
+    while loop.time() - world.last_progress < 2.0 and loop.time() < deadline:
         loop.run_sim(until_time=loop.time() + 1.0)
-    if not drained():
+    if loop.time() - world.last_progress < 2.0:
         world.stats['not_drained'] = 1
-    else:
-        loop.run_sim(until_time=loop.time() + 0.5)
     world.rec('mark', what='settled')
     for name in ('client', 'server'):
         world.observe_final(name)
